@@ -203,3 +203,11 @@ Example C08_cumext_noskip_example :
   cumulative_t (zops true MIN_INT) true CMax false [0; 1; 0; 1] [MIN_INT; 3; 7; 9] 2 None = [MIN_INT; 3; MIN_INT; 9] /\
   cumext_noskip_spec (zops true MIN_INT) true [0; 1; 0; 1] [MIN_INT; 3; 7; 9] None = [MIN_INT; 3; MIN_INT; 9].
 Proof. vm_compute. repeat split. Qed.
+
+(* ... and groups are independent in IEEE arithmetic: for every float64 input, mask, operation and skip_na setting the outputs at
+   the rows of group g are, bit for bit, the outputs of the same kernel on the rows of group g alone. *)
+From GL Require Proofs.EmaFloatProofs Proofs.CumFloatIndep.
+Theorem C08_float_groups_are_independent o sk g rows : (0 <= g)%Z ->
+  EmaFloatProofs.outs_of g rows (CumFloat.cum_f o sk rows) = CumFloat.cum_f o sk (filter (EmaFloatProofs.of_group g) rows).
+Proof. exact (CumFloatIndep.cum_groups_are_independent o sk g rows). Qed.
+Print Assumptions C08_float_groups_are_independent.
